@@ -995,6 +995,22 @@ impl StepOracle for NoFreeValueOracle {
             }
             tags.push("vault_side_checked");
         }
+        // ... and what a position is credited on the way in (deposit, repayment) is at most what arrived in the
+        // liquidity vault (a transfer-fee mint withholds part of what the user sent); the risk admin's sanctioned
+        // token-less repayment on a bank flagged for it is the one credit without tokens
+        let tokenless_ok = matches!(c.a, Action::Repay { all: true, .. }) && world::try_bank(&c.pre.s, &bh.key).map(|x| x.flags & marginfi_type_crate::constants::TOKENLESS_REPAYMENTS_ALLOWED != 0).unwrap_or(false);
+        if matches!(c.a, Action::Deposit { .. } | Action::Repay { .. }) && !tokenless_ok {
+            let v0 = world::token_amount(&c.pre.s, &bh.lv) as i128;
+            let v1 = world::token_amount(c.post, &bh.lv) as i128;
+            let received = rf::qi(v1 - v0);
+            if d_pos.clone() > received.clone() + allow.clone() {
+                out.push(Violation {
+                    clause: "C03.no_gain".into(),
+                    detail: format!("{:?}: the position was credited {:.9} native units while the liquidity vault received {} (the user's token account paid {})", c.a, rf::qf64(&d_pos), v1 - v0, t0 - t1),
+                });
+            }
+            tags.push("vault_inflow_checked");
+        }
         if d_w > allow {
             out.push(Violation {
                 clause: "C03.no_gain".into(),
